@@ -223,5 +223,5 @@ def replay_mon(rep: dict, prop: str, post=None) -> List[dict]:
 
 
 def sizes(tier: str, scale: float, quick_cases: int, thorough_cases: int) -> int:
-    n = quick_cases if tier == "quick" else thorough_cases * 4
+    n = quick_cases * 2 if tier == "quick" else thorough_cases * 4
     return max(16, int(n * scale))
